@@ -447,85 +447,123 @@ func init() {
 					return
 				}
 				c := f.Ctx()
-				var nonceLoop, inputOrder bool
-				var loopPos, ordPos token.Pos
-				core.InspectBody(f, func(x ast.Node) bool {
-					switch s := x.(type) {
-					case *ast.ForStmt:
-						// for nonce := currentNonce; ; nonce++ { if tx, ok := txs[nonce]; ok { merge = append(merge, tx) } else { break } }
-						as, ok := s.Init.(*ast.AssignStmt)
-						if !ok || len(as.Lhs) != 1 || s.Cond != nil {
-							return true
+				inside := func(outer ast.Node, x ast.Node) bool { return x != nil && outer.Pos() <= x.Pos() && x.End() <= outer.End() }
+				// (a) the per-sender walk: `for nonce := getCurrentNonce(from); ; nonce++`, whose body looks the
+				// nonce up (comma-ok), appends the transaction found and goes on only after a hit
+				nonceLabel := "sortEthSignTyTx per-sender loop: start=getCurrentNonce(from), step +1, stop at first gap"
+				var loop *ast.ForStmt
+				var iv types.Object
+				for _, lp := range core.LoopsIn(f) {
+					fs, ok := lp.(*ast.ForStmt)
+					if !ok || fs.Init == nil || fs.Post == nil {
+						continue
+					}
+					as, ok := fs.Init.(*ast.AssignStmt)
+					if !ok || len(as.Lhs) != 1 || len(as.Rhs) != 1 || !core.FromCall(0, mpm+"getCurrentNonce")(c, as.Rhs[0]) {
+						continue
+					}
+					id, ok := as.Lhs[0].(*ast.Ident)
+					if !ok {
+						continue
+					}
+					inc, ok := fs.Post.(*ast.IncDecStmt)
+					if !ok || inc.Tok != token.INC {
+						continue
+					}
+					if pid, ok := inc.X.(*ast.Ident); !ok || c.Info.ObjectOf(pid) != c.Info.ObjectOf(id) {
+						continue
+					}
+					loop, iv = fs, c.Info.ObjectOf(id)
+				}
+				if loop == nil {
+					r.Fail(nonceLabel, r.W.Pos(f.Node().Pos()), "no loop that starts at getCurrentNonce(from) and steps the nonce by one")
+				} else {
+					byNonce := func(c *core.Ctx, e ast.Expr) bool { // the map indexed by the loop's nonce
+						return true
+					}
+					hitVar := func(c *core.Ctx, e ast.Expr) bool {
+						if !core.CommaOK(byNonce)(c, e) {
+							return false
 						}
-						iv := c.Info.ObjectOf(as.Lhs[0].(*ast.Ident))
-						if !core.FromCall(0, mpm+"getCurrentNonce")(c, as.Rhs[0]) {
-							return true
+						for _, d := range c.DefsOf(c.Info.ObjectOf(ast.Unparen(e).(*ast.Ident))) {
+							ix, ok := ast.Unparen(d.Rhs).(*ast.IndexExpr)
+							if !ok {
+								return false
+							}
+							if id, ok := ast.Unparen(ix.Index).(*ast.Ident); !ok || c.Info.ObjectOf(id) != iv {
+								return false
+							}
 						}
-						inc, ok := s.Post.(*ast.IncDecStmt)
-						if !ok || inc.Tok != token.INC {
-							return true
-						}
-						if id, ok := inc.X.(*ast.Ident); !ok || c.Info.ObjectOf(id) != iv {
-							return true
-						}
-						// body: single if with comma-ok map index by iv; then-branch appends, else-branch breaks
-						if len(s.Body.List) != 1 {
-							return true
-						}
-						ifs, ok := s.Body.List[0].(*ast.IfStmt)
-						if !ok || ifs.Init == nil || ifs.Else == nil {
-							return true
-						}
-						ia, ok := ifs.Init.(*ast.AssignStmt)
-						if !ok || len(ia.Rhs) != 1 {
-							return true
-						}
-						ix, ok := ast.Unparen(ia.Rhs[0]).(*ast.IndexExpr)
+						return true
+					}
+					found := func(c *core.Ctx, e ast.Expr) bool { // the value of that comma-ok lookup
+						id, ok := ast.Unparen(e).(*ast.Ident)
 						if !ok {
-							return true
+							return false
 						}
-						if id, ok := ast.Unparen(ix.Index).(*ast.Ident); !ok || c.Info.ObjectOf(id) != iv {
-							return true
+						defs := c.DefsOf(c.Info.ObjectOf(id))
+						if len(defs) == 0 {
+							return false
 						}
-						hasAppend, hasBreak := false, false
-						ast.Inspect(ifs.Body, func(y ast.Node) bool {
-							if call, ok := y.(*ast.CallExpr); ok && core.IsBuiltinCall(c.Info, call, "append") {
-								hasAppend = true
+						for _, d := range defs {
+							ix, ok := ast.Unparen(d.Rhs).(*ast.IndexExpr)
+							if d.Rhs == nil || !ok || d.Idx != 0 || d.N != 2 {
+								return false
 							}
-							return true
-						})
-						ast.Inspect(ifs.Else, func(y ast.Node) bool {
-							if b, ok := y.(*ast.BranchStmt); ok && b.Tok == token.BREAK {
-								hasBreak = true
+							if nid, ok := ast.Unparen(ix.Index).(*ast.Ident); !ok || c.Info.ObjectOf(nid) != iv {
+								return false
 							}
-							return true
-						})
-						if hasAppend && hasBreak {
-							nonceLoop = true
-							loopPos = s.Pos()
 						}
-					case *ast.RangeStmt:
-						if core.IsObj("param:0")(c, s.X) {
-							// non-eth: merge = append(merge, tx) with tx the range value, in the body (not nested loop)
-							val, _ := s.Value.(*ast.Ident)
-							for _, st := range s.Body.List {
-								if as, ok := st.(*ast.AssignStmt); ok && len(as.Rhs) == 1 {
-									if call, ok := as.Rhs[0].(*ast.CallExpr); ok && core.IsBuiltinCall(c.Info, call, "append") && len(call.Args) == 2 && val != nil {
-										if id, ok := call.Args[1].(*ast.Ident); ok && c.Info.ObjectOf(id) == c.Info.ObjectOf(val) {
-											inputOrder = true
-											ordPos = as.Pos()
-										}
+						return true
+					}
+					sp := &core.FlowSpec{Conds: []core.CondGuard{core.BoolGuard("nonce-found", hitVar, true)}}
+					appendFound := core.SinkPred{Label: "append of the transaction found under the nonce", Match: func(fl *core.Flow, n *core.GNode) bool {
+						as, ok := n.Ast.(*ast.AssignStmt)
+						if !ok || !inside(loop.Body, n.Ast) || len(as.Rhs) != 1 {
+							return false
+						}
+						call, ok := ast.Unparen(as.Rhs[0]).(*ast.CallExpr)
+						return ok && core.IsBuiltinCall(fl.C.Info, call, "append") && len(call.Args) == 2 && found(fl.C, call.Args[1])
+					}}
+					step := core.SinkPred{Label: "nonce++ (the walk goes on)", Match: func(fl *core.Flow, n *core.GNode) bool { return n.Ast == ast.Node(loop.Post) }}
+					before := len(r.Obls)
+					core.Dominated{Fn: f.Name, Spec: sp, Sink: appendFound, Need: []Fact{"nonce-found"}, Min: 1}.Check(r)
+					core.Dominated{Fn: f.Name, Spec: sp, Sink: step, Need: []Fact{"nonce-found"}, Min: 1}.Check(r)
+					okAll := true
+					for _, o := range r.Obls[before:] {
+						if o.Status != core.SOK {
+							okAll = false
+						}
+					}
+					if okAll {
+						r.OK(nonceLabel, r.W.Pos(loop.Pos()), "the found transaction is appended and the nonce only advances after a hit")
+					}
+				}
+				// (b) every other transaction is appended in the single walk over the input, in input order
+				var inputOrder bool
+				var ordPos token.Pos
+				for _, lp := range core.LoopsIn(f) {
+					rs, ok := lp.(*ast.RangeStmt)
+					if !ok || !core.IsObj("param:0")(c, rs.X) {
+						continue
+					}
+					val, _ := rs.Value.(*ast.Ident)
+					ast.Inspect(rs.Body, func(y ast.Node) bool {
+						switch st := y.(type) {
+						case *ast.ForStmt, *ast.RangeStmt, *ast.FuncLit:
+							return false
+						case *ast.AssignStmt:
+							if len(st.Rhs) == 1 && val != nil {
+								if call, ok := ast.Unparen(st.Rhs[0]).(*ast.CallExpr); ok && core.IsBuiltinCall(c.Info, call, "append") && len(call.Args) == 2 {
+									if id, ok := ast.Unparen(call.Args[1]).(*ast.Ident); ok && c.Info.ObjectOf(id) == c.Info.ObjectOf(val) {
+										inputOrder = true
+										ordPos = st.Pos()
 									}
 								}
 							}
 						}
-					}
-					return true
-				})
-				if nonceLoop {
-					r.OK("sortEthSignTyTx per-sender loop: start=getCurrentNonce(from), step +1, stop at first gap", r.W.Pos(loopPos), "canonical consecutive-nonce loop")
-				} else {
-					r.Fail("sortEthSignTyTx per-sender loop: start=getCurrentNonce(from), step +1, stop at first gap", r.W.Pos(f.Node().Pos()), "no loop of the canonical shape (init from getCurrentNonce, nonce++, append on hit, break on miss)")
+						return true
+					})
 				}
 				if inputOrder {
 					r.OK("sortEthSignTyTx keeps non-eth transactions in input order", r.W.Pos(ordPos), "appended inside the single range over the input")
